@@ -8,7 +8,7 @@ from .. import b2check, core, gen
 
 
 def jobs(rng, thorough):
-    n = 8000 if thorough else 400
+    n = 40000 if thorough else 400
     out = []
     for _ in range(n):
         out.append((gen.conn_traffic(rng), rng.randrange(10 ** 9), rng.choice([0, 0, 3, 6])))
